@@ -47,6 +47,7 @@ eca7f36 C18 C18-orphan-notification-handler
 990294b C11 C11-get-proxy-turns-429-into-500
 100d1a6 C07 C07-get-proxy-stale-content-length
 ae42e46 C19 C19-upgrade-headers-on-non-get
+a0f137c C06 C06-unsubscribe-false-right-after-accept-response
 LIST
 rm -rf /verif/replays
 (cd /verif/sim && cargo build --release --offline -q 2>/dev/null)
